@@ -45,7 +45,7 @@ Proof.
   clear Hsame. revert Hfuel. generalize fuel. clear fuel.
   induction HF as [|v t vs ts' (Hg & Hv & Hd) HF IH]; intros fuel Hfuel; [constructor|].
   cbn [map]. constructor.
-  - intro r. apply spec_dec_enc_top; auto. eapply Hfuel; [left; reflexivity|exact Hv].
+  - intro r. apply spec_dec_enc_top; auto using good_ty_wf. eapply Hfuel; [left; reflexivity|exact Hv].
   - apply IH. intros v' t' Hin Hv'. eapply Hfuel; [right; exact Hin|exact Hv'].
 Qed.
 
@@ -53,13 +53,13 @@ Qed.
 Theorem call_result_roundtrip : forall c r t rest, refl_drop8 c = false ->
   good_ty t = true -> has_ty r t = true -> refl_domain t = true -> lens_ok r = true -> keys_nodup r ->
   proxy_recv c t (stub_reply r ++ rest) = ROk (r, rest).
-Proof. intros c r t rest Hc Hg Hr Hd Hl Hk. unfold proxy_recv, stub_reply. now apply refl_dec_spec. Qed.
+Proof. intros c r t rest Hc Hg Hr Hd Hl Hk. unfold proxy_recv, stub_reply. apply refl_dec_spec; auto using good_ty_wf. Qed.
 
 (* signal and property payloads: generated helper to generated subscriber *)
 Theorem signal_roundtrip : forall v t rest, good_ty t = true -> has_ty v t = true ->
   subscriber_recv t (emit v ++ rest) = ROk (v, rest).
 Proof.
-  intros v t rest Hg Hv. unfold subscriber_recv, emit. apply spec_dec_enc_top; auto.
+  intros v t rest Hg Hv. unfold subscriber_recv, emit. apply spec_dec_enc_top; auto using good_ty_wf.
   pose proof (dyn_depth_le_len v t Hv) as Hd. rewrite app_length. lia.
 Qed.
 
